@@ -1,5 +1,5 @@
 (** SemgrepResultSet.from_sarif / CodeQLResultSet.from_sarif up to the findings they file. [None] = exception. *)
-From CM Require Export Model.Readers.
+From CM Require Export Model.Readers Base.Types_Location.
 
 Definition s_runs := [114;117;110;115]%N.
 Definition s_ruleId := [114;117;108;101;73;100]%N.
@@ -76,7 +76,7 @@ Definition codeql_detect (run : json) : option bool :=
   | Some tool => d <- jget s_driver tool ;; n <- jget s_name d ;; nm <- jstr n ;; Some (is_infix s_CodeQL nm)
   end.
 
-Definition codeql_location (rule : str) (loc : json) : option finding :=
+Definition codeql_location (scd : sc_default) (rule : str) (loc : json) : option finding :=
   pl <- jget s_physicalLocation loc ;; al <- jget s_artifactLocation pl ;; uri <- jget s_uri al ;; u <- jstr uri ;;
   match pl with
   | JObj _ =>
@@ -85,7 +85,10 @@ Definition codeql_location (rule : str) (loc : json) : option finding :=
       | Some (JObj r) =>
           let rg := JObj r in
           sl <- jget s_startLine rg ;;
-          let sc := jget_or_null s_startColumn rg in
+          let sc := match jget s_startColumn rg with
+                    | Some v => v
+                    | None => match scd with ScNone => JNull | ScOne => JNum 1 end   (* region.get("startColumn"[, 1]) *)
+                    end in
           Some {| f_rule := rule; f_id := JStr rule; f_file := u; f_sl := sl; f_sc := sc;
                   f_el := match jget s_endLine rg with Some v => v | None => sl end;
                   f_ec := match jget s_endColumn rg with Some v => v | None => sc end |}
@@ -94,14 +97,14 @@ Definition codeql_location (rule : str) (loc : json) : option finding :=
   | _ => None
   end.
 
-Definition codeql_result (run result : json) : option (list finding) :=
+Definition codeql_result (scd : sc_default) (run result : json) : option (list finding) :=
   rule <- extract_rule_id result run ;;
-  locs <- jget s_locations result ;; ls <- jarr locs ;; mapM (codeql_location rule) ls.
+  locs <- jget s_locations result ;; ls <- jarr locs ;; mapM (codeql_location scd rule) ls.
 
-Definition codeql_run (run : json) : option (list finding) :=
+Definition codeql_run (scd : sc_default) (run : json) : option (list finding) :=
   d <- codeql_detect run ;;
-  if d then rs <- jget s_results run ;; l <- jarr rs ;; fs <- mapM (codeql_result run) l ;; Some (concat fs)
+  if d then rs <- jget s_results run ;; l <- jarr rs ;; fs <- mapM (codeql_result scd run) l ;; Some (concat fs)
   else Some [].
 
-Definition codeql_reader (doc : json) : option (list finding) :=
-  runs <- jget s_runs doc ;; l <- jarr runs ;; fs <- mapM codeql_run l ;; Some (concat fs).
+Definition codeql_reader (scd : sc_default) (doc : json) : option (list finding) :=
+  runs <- jget s_runs doc ;; l <- jarr runs ;; fs <- mapM (codeql_run scd) l ;; Some (concat fs).
